@@ -33,9 +33,9 @@ RULES = {
     "C04": "grammars: profile 'unicode' (literals/ranges/classes over the whole Unicode range, insensitive literals, char, externs returning correct byte lengths); inputs mix ASCII and multi-byte characters; all three tracer modes under catch_unwind with the cfg(peginator_verif) boundary assertion on; every exposed offset checked (is_char_boundary, <= len), every string/char of the tree must occur in the input. Non-trivial = a terminal was attempted at an offset holding a multi-byte character; distinct (grammar, rule, input).",
     "C08": "grammars: profile 'ws' (skipping and @no_skip_ws rules calling each other, includes, @string, lookaheads, $, char fields, externs, custom Whitespace rules); inputs: derivations with, independently at every token gap, nothing / one of the five ASCII whitespace chars / runs / near misses (\\x0B, U+00A0, U+2003, U+FEFF, ...); oracle: the interpreter only (accept, consumed bytes, tree). Non-trivial = whitespace skipped inside a nested construct, or a near-miss character met at a skip point, or whitespace skipped in a grammar mixing both settings; distinct (grammar, rule, input).",
     "C09": "grammars: profile 'pos' (random subsets of rules @position incl. @string and enum overrides, memoized rules with shared prefixes, multi-byte input, whitespace) plus 1/5 structured left-recursive grammars; oracle: interpreter positions inside the expected Debug tree plus interpreter-free invariants (valid byte span, string == slice, child inside parent, list elements ordered and non-overlapping, root at 0, PegPosition trait == field). Non-trivial = successful parse with >= 2 position nodes and (whitespace skipped | multi-byte consumed | cache revisit/growth); distinct (grammar, rule, input).",
-    "C10": "grammars: profile 'core' (1/2), profile 'fields' (1/4; multi-field optionals and closures have their own templates) plus structured left-recursive grammars (1/4; the sentinel clause applies to those whose recursive alternatives come first); failing parses only; oracle: set of all failed attempts F_all and the counted furthest set of the interpreter (lookahead rule per the statement). Checks: position <= len on a boundary, (position, specifics) in F_all; without memo/leftrec position == furthest and specifics among the attempts counted there; never LeftRecursionSentinel. Non-trivial = failing parse whose failed attempts span >= 2 offsets and whose furthest failure is beyond offset 0; distinct (grammar, rule, input).",
-    "C14": "grammars: seven eighths profile 'hooks', one eighth left-recursive shapes with checks on the growing rule (@check on struct/unit/override/enum/@string/@position/@char rules, @extern with and without result type, under every construct); configurations: without and with user context type (alternating grammars); oracle: interpreter calling the same pure functions; compared: accept, consumed, tree, and the argument log (predicted calls subset/superset; exact sequence without caches), argument type, calls recorded in the user context. Non-trivial = a hook returned false/Err during the parse; distinct (grammar, rule, input).",
-    "C19": "grammars: profile 'mixed' (memoized rules, failing checks, externs, all constructs); every input parsed plain, with parse_with_trace (IndentedTracer, debug build: underflow panics) and with a recording custom tracer; results must be identical, no panic, recorded entries/exits balanced with the tracer value's own depth equal to the nesting depth, outermost pair = exported rule with the parse result; vs interpreter: no phantom entries, and (no caches) every successful-path invocation reported in order. Non-trivial = trace contains a failing rule or a cache/growth info event; distinct (grammar, rule, input).",
+    "C10": "grammars: profile 'core' (1/2), profile 'fields' (1/4; multi-field optionals and closures have their own templates) plus structured left-recursive grammars (1/4; the sentinel clause applies to those whose recursive alternatives come first); failing parses only; oracle: set of all failed attempts F_all and the counted furthest set of the interpreter (lookahead rule per the statement). Checks: position <= len on a boundary and an offset at which F_all has a failed attempt; the specifics are one of F_all's attempts at that offset or name a terminal / class / user function / lookahead of the grammar that truly does not match there (an implementation may make further real attempts of its own); without memo/leftrec position == furthest; never LeftRecursionSentinel. Non-trivial = failing parse whose failed attempts span >= 2 offsets and whose furthest failure is beyond offset 0; distinct (grammar, rule, input).",
+    "C14": "grammars: seven eighths profile 'hooks', one eighth left-recursive shapes with checks on the growing rule (@check on struct/unit/override/enum/@string/@position/@char rules, @extern with and without result type, under every construct); configurations: without and with user context type (alternating grammars); oracle: interpreter calling the same pure functions; compared: accept, consumed, tree; every observed call must carry an argument the documented semantics passes (a @char check: any character of the input), every predicted extern call must be made, argument type, calls recorded in the user context. Whether and in which order checks that cannot change the decision are asked is not specified and not compared. Non-trivial = a hook returned false/Err during the parse; distinct (grammar, rule, input).",
+    "C19": "grammars: profile 'mixed' (memoized rules, failing checks, externs, all constructs); every input parsed plain, with parse_with_trace (IndentedTracer, debug build: underflow panics) and with a recording custom tracer; results must be identical, no panic, recorded entries/exits balanced with the tracer value's own depth equal to the nesting depth, outermost pair = exported rule with the parse result; agreement of the reported entries with the reference evaluation is only counted (class trace_entries_match_reference_evaluation): which entries a correct implementation reports beyond balance is not specified. Non-trivial = trace contains a failing rule or a cache/growth info event; distinct (grammar, rule, input).",
 }
 
 
